@@ -1,8 +1,10 @@
 #!/bin/bash
 # Re-run every seeded change against the current checks: each must be reported (exit 1 + VIOLATION).
+# usage: recheck_seeded.sh [name-regex]   (default: all)
 cd /verif
+PAT=${1:-.}
 for d in seeded/*/; do
-  name=$(basename $d); prop=$(python3 -c "import json;print(json.load(open('$d/meta.json'))['property'])")
+  name=$(basename $d); echo "$name" | grep -Eq "$PAT" || continue; prop=$(python3 -c "import json;print(json.load(open('$d/meta.json'))['property'])")
   (cd /repo && git apply /verif/$d/patch.diff) || { echo "$name: patch does not apply"; continue; }
   out=$(./check $prop --tier quick 2>&1); rc=$?
   (cd /repo && git checkout -- .)
